@@ -102,3 +102,131 @@ Proof.
   revert g; induction rrow as [|c t IH]; intros g; [reflexivity|]. cbn [ref_offset_from degap filter].
   destruct (c =? 45); cbn [negb length]; rewrite IH; reflexivity.
 Qed.
+
+(* ================= one-record queries: the whole of blockToSeqPair ================= *)
+From GF Require Import SamProofs.
+Open Scope N_scope.
+
+Fixpoint ins_total (ops : list (op * nat)) : nat :=
+  match ops with [] => 0 | (OI, len) :: t => (len + ins_total t)%nat | _ :: t => ins_total t end.
+
+Lemma walk2_len ops : forall q r sq ref x y, walk2 true ops q r sq ref = Some (x, y) ->
+  length y = (ref_span ops + ins_total ops)%nat.
+Proof.
+  induction ops as [|[o len] t IH]; intros q r sq ref x y H; cbn [walk2 ref_span ins_total] in *; [injection H as <- <-; reflexivity|].
+  destruct o;
+    repeat match type of H with
+    | match slice ?a ?b ?c with _ => _ end = _ => let E := fresh "E" in destruct (slice a b c) eqn:E; [|discriminate]
+    | match walk2 ?i ?o ?a ?b ?c ?d with _ => _ end = _ => let E := fresh "E" in destruct (walk2 i o a b c d) as [[? ?]|] eqn:E; [|discriminate]
+    end;
+    try (injection H as <- <-; rewrite app_length;
+         repeat match goal with E : slice _ _ _ = Some _ |- _ => rewrite (slice_length _ _ _ _ E); clear E end;
+         rewrite ?repeat_length;
+         match goal with E : walk2 _ _ _ _ _ _ = Some _ |- _ => rewrite (IH _ _ _ _ _ _ E) end; lia);
+    try (apply (IH _ _ _ _ _ _ H)).
+Qed.
+
+Lemma transpose_single n : forall r, length r = n -> transpose_n n [r] = map (fun x => [x]) r.
+Proof.
+  induction n as [|n IH]; intros r Hl; [destruct r; [reflexivity|discriminate]|].
+  destruct r as [|a t]; [discriminate|]. cbn [transpose_n map hd tl]. rewrite IH by (cbn in Hl; lia). reflexivity.
+Qed.
+Lemma flatten_block_single r : flatten_block [r] = r.
+Proof.
+  unfold flatten_block. rewrite transpose_single by reflexivity. rewrite map_map.
+  induction r as [|a t IH]; [reflexivity|]. cbn [map]. rewrite nuc_single, IH. reflexivity.
+Qed.
+
+Definition tot (l : list (nat * nat * nat)) : nat := fold_left (fun a i => (a + snd (fst i))%nat) l 0%nat.
+Lemma fold_add_shift l : forall a, fold_left (fun a i => (a + snd (fst i))%nat) l a = (a + tot l)%nat.
+Proof.
+  unfold tot. induction l as [|x t IH]; intros a; cbn [fold_left]; [lia|]. rewrite IH, (IH (0 + _)%nat). lia.
+Qed.
+Lemma tot_cons x l : tot (x :: l) = (snd (fst x) + tot l)%nat.
+Proof. unfold tot at 1. cbn [fold_left]. rewrite fold_add_shift. lia. Qed.
+Lemma tot_ins_sorted x l : tot (ins_sorted x l) = (snd (fst x) + tot l)%nat.
+Proof.
+  induction l as [|y t IH]; cbn [ins_sorted]; [rewrite tot_cons; reflexivity|].
+  destruct (Nat.ltb _ _); rewrite !tot_cons; [reflexivity|]. rewrite IH. lia.
+Qed.
+Lemma tot_sort l : tot (sort_insertions l) = tot l.
+Proof.
+  unfold sort_insertions. assert (G : forall acc, tot (fold_left (fun acc x => ins_sorted x acc) l acc) = (tot acc + tot l)%nat).
+  { induction l as [|x t IH]; intros acc; cbn [fold_left]; [unfold tot at 3; cbn; lia|]. rewrite IH, tot_ins_sorted, tot_cons. lia. }
+  rewrite G. unfold tot at 1. cbn. lia.
+Qed.
+Lemma tot_ins_of_cigar row ops : forall pos, tot (ins_of_cigar row pos ops) = ins_total ops.
+Proof.
+  induction ops as [|[o len] t IH]; intros pos; cbn [ins_of_cigar ins_total]; [reflexivity|].
+  destruct o; cbn [app]; rewrite ?tot_cons, IH; cbn [fst snd]; reflexivity.
+Qed.
+Lemma ins_of_cigar_row row ops : forall pos, Forall (fun i => snd i = row) (ins_of_cigar row pos ops).
+Proof.
+  induction ops as [|[o len] t IH]; intros pos; cbn [ins_of_cigar]; [constructor|]. destruct o; cbn [app]; try apply IH. constructor; [reflexivity|apply IH].
+Qed.
+Lemma sort_insertions_In l x : In x (sort_insertions l) <-> In x l.
+Proof.
+  unfold sort_insertions. assert (I1 : forall y acc, In x (ins_sorted y acc) <-> x = y \/ In x acc).
+  { intros y acc. induction acc as [|a t IH]; cbn [ins_sorted]; [cbn; intuition congruence|]. destruct (Nat.ltb _ _); cbn [In]; [intuition congruence|]. rewrite IH. intuition congruence. }
+  assert (G : forall acc, In x (fold_left (fun acc y => ins_sorted y acc) l acc) <-> In x acc \/ In x l).
+  { induction l as [|y t IH]; intros acc; cbn [fold_left]; [cbn; tauto|]. rewrite IH, I1. cbn [In]. intuition congruence. }
+  rewrite G. cbn. tauto.
+Qed.
+Lemma regap_own_row rq ins : Forall (fun i => snd i = 0%nat) ins -> regap [rq] ins = [rq].
+Proof.
+  unfold regap. induction 1 as [|[[st ln] row] t Hrow Ht IH]; [reflexivity|]. cbn [fold_left]. cbn [snd] in Hrow. subst row.
+  cbn [mapi_from Nat.eqb]. exact IH.
+Qed.
+
+(* a single-record query, any CIGAR over the nine operators, any POS: the two rows have equal length, the reference row
+   with its gap columns removed is EXACTLY the reference, and it has '-' in exactly as many columns as bases were inserted *)
+Theorem pair1_degap_ref ref rc R Q : ~ In 45 ref -> block_to_seq_pair ref [rc] = Some (R, Q) ->
+  degap R = ref /\ length R = (length ref + ins_total (s_cigar rc))%nat /\ length Q = length R.
+Proof.
+  intros Hng H. unfold block_to_seq_pair in H. cbn [map all_some] in H.
+  destruct (one_line_plus_ref true rc ref) as [[qrow rrow]|] eqn:E1; [|discriminate]. cbn [option_map] in H.
+  destruct (one_line_plus_ref_rows rc ref qrow rrow Hng E1) as [Hl Hd].
+  assert (Hrl : length rrow = (s_pos rc + (ref_span (s_cigar rc) + ins_total (s_cigar rc)))%nat).
+  { unfold one_line_plus_ref in E1. destruct (Nat.ltb_spec (length ref) (s_pos rc)); [discriminate|].
+    destruct (walk2 true (s_cigar rc) 0 (s_pos rc) (s_seq rc) ref) as [[x y]|] eqn:Ew; [|discriminate]. injection E1 as <- <-.
+    rewrite app_length, firstn_length, (walk2_len _ _ _ _ _ _ _ Ew). lia. }
+  assert (Hpos : (s_pos rc + ref_span (s_cigar rc) <= length ref)%nat).
+  { assert (L : length (degap rrow) = (s_pos rc + ref_span (s_cigar rc))%nat \/ (length (degap rrow) < s_pos rc + ref_span (s_cigar rc))%nat).
+    { rewrite Hd, firstn_length. lia. }
+    (* the walk succeeded, so every slice of the reference was in range *)
+    unfold one_line_plus_ref in E1. destruct (Nat.ltb_spec (length ref) (s_pos rc)); [discriminate|].
+    destruct (walk2 true (s_cigar rc) 0 (s_pos rc) (s_seq rc) ref) as [[x y]|] eqn:Ew; [|discriminate].
+    assert (W : forall ops q r sq x y, walk2 true ops q r sq ref = Some (x, y) -> (r <= length ref -> r + ref_span ops <= length ref)%nat).
+    { induction ops as [|[o len] t IHo]; intros q r sq x0 y0 Hw Hr; cbn [walk2 ref_span] in *; [lia|].
+      destruct o;
+        repeat match type of Hw with
+        | match slice ?a ?b ?c with _ => _ end = _ => let E := fresh "E" in destruct (slice a b c) eqn:E; [|discriminate]
+        | match walk2 ?i ?o ?a ?b ?c ?d with _ => _ end = _ => let E := fresh "E" in destruct (walk2 i o a b c d) as [[? ?]|] eqn:E; [|discriminate]
+        end;
+        repeat match goal with E : slice ref _ _ = Some _ |- _ => apply slice_is in E; destruct E as [_ E] end;
+        match goal with
+        | E : walk2 _ _ _ _ _ _ = Some _ |- _ => specialize (IHo _ _ _ _ _ E); lia
+        | _ => specialize (IHo _ _ _ _ _ Hw); lia
+        end. }
+    apply (W _ _ _ _ _ _ Ew). assumption. }
+  assert (Hrow0 : Forall (fun i => snd i = 0%nat) (sort_insertions (block_insertions [rc]))).
+  { apply Forall_forall. intros i Hi. apply (proj1 (sort_insertions_In _ _)) in Hi. unfold block_insertions in Hi. cbn [mapi_from concat] in Hi. rewrite ?app_nil_r in Hi.
+    pose proof (ins_of_cigar_row 0 (s_cigar rc) (s_pos rc)) as F. rewrite Forall_forall in F. apply F. exact Hi. }
+  assert (Htot : tot (sort_insertions (block_insertions [rc])) = ins_total (s_cigar rc)).
+  { rewrite tot_sort. unfold block_insertions. cbn [mapi_from concat]. rewrite ?app_nil_r. apply tot_ins_of_cigar. }
+  cbn [map fst snd] in H. rewrite (regap_own_row (rrow, qrow) _ Hrow0) in H. cbn [map fst snd fold_left] in H.
+  replace (Nat.max 0 (length rrow)) with (length rrow) in H by lia.
+  unfold pad_to in H. rewrite Nat.sub_diag in H. replace (length rrow - length qrow)%nat with 0%nat in H by lia. cbn [repeat] in H. rewrite !app_nil_r in H.
+  rewrite !flatten_block_single in H. fold (tot (sort_insertions (block_insertions [rc]))) in H. rewrite Htot in H.
+  destruct (Nat.ltb_spec (length rrow) (ins_total (s_cigar rc) + length ref)) as [Hlt|Hge].
+  - destruct (Nat.ltb_spec (length ref) (ins_total (s_cigar rc) + length ref - length rrow)); [discriminate|]. injection H as <- <-.
+    replace (length ref - (ins_total (s_cigar rc) + length ref - length rrow))%nat with (s_pos rc + ref_span (s_cigar rc))%nat by lia.
+    split; [|split].
+    + rewrite degap_app, Hd, degap_id by (intros Hin; apply Hng; eapply skipn_In_sub; eauto). apply firstn_skipn.
+    + rewrite app_length, skipn_length. lia.
+    + unfold swap_pad. rewrite map_length, !app_length, repeat_length, skipn_length. lia.
+  - injection H as <- <-. assert (s_pos rc + ref_span (s_cigar rc) = length ref)%nat by lia. split; [|split].
+    + rewrite Hd. replace (s_pos rc + ref_span (s_cigar rc))%nat with (length ref) by lia. apply firstn_all.
+    + lia.
+    + unfold swap_pad. rewrite map_length. exact Hl.
+Qed.
